@@ -422,7 +422,10 @@ func Explore(pool *Pool, spec Spec, deadline time.Time, maxViol int) (Stats, []F
 					}
 					continue // do not explore beyond a violating state
 				}
-				if !seen[s.Key] {
+				if !seen[s.Key] || spec.Extra["nodedup"] == 1 {
+					// nodedup: every history up to the depth bound is extended, whatever state it reaches;
+					// this also separates states that differ only in hidden state the canonical key does
+					// not know about (e.g. something a changed library captures in a closure)
 					seen[s.Key] = true
 					st.States++
 					if s.Term {
